@@ -248,6 +248,13 @@ pub fn scenario(prop: &str, tier: &str, sseed: u64, index: u64) -> (&'static str
     }
     let mut g = G::new(sseed);
     let _ = tier;
+    // rare and expensive (a second of real time per run): handlers with a whole-second duration
+    if prop == "C20" && index % 3000 == 5 {
+        return ("long-handler", families::long_handler(&mut g, true));
+    }
+    if prop == "C18" && index % 4000 == 11 {
+        return ("long-handler", families::long_handler(&mut g, false));
+    }
     // C16 and C18 re-use the scenarios of the messaging / lifecycle properties
     if prop == "C16" || prop == "C18" {
         const POOL: [&str; 12] = ["C01", "C02", "C03", "C04", "C05", "C06", "C07", "C08", "C09", "C10", "C11", "C13"];
